@@ -156,12 +156,15 @@ func TestVerifC03Concurrent(t *testing.T) {
 				if k.earlySig != "" && !verifyWith(k.earlySig, k.pub) {
 					r.Violation("C03|concurrent|"+s.name+"|binding|own-key-fails|SignJWT-after-New", fmt.Sprintf("with %d concurrent key creations on the %s back-end: the first signature for a new key id does not verify with the public key New returned for it", workers, s.name), rc)
 				}
-				if p, err := s.c.Resolve(ctx, k.kid); err != nil || !samePub(p, k.pub) {
+				// an operation that FAILS (time-out of the store under load, ...) contradicts nothing: only a DIFFERENT key does
+				if p, err := s.c.Resolve(ctx, k.kid); err != nil {
+					r.Observation("concurrent-created-key-does-not-resolve:"+s.name, err.Error())
+				} else if !samePub(p, k.pub) {
 					r.Violation("C03|concurrent|"+s.name+"|binding|resolve-differs", fmt.Sprintf("with %d concurrent key creations on the %s back-end: Resolve of a created key id does not return the public key New returned for it (%v)", workers, s.name, err), rc)
 				}
 				tok, err := s.c.SignJWT(ctx, map[string]interface{}{"iss": "verif"}, nil, k.kid)
 				if err != nil {
-					r.Violation("C03|concurrent|"+s.name+"|binding|created-key-does-not-sign", fmt.Sprintf("with %d concurrent key creations on the %s back-end: New reported success but the key id cannot sign: %v", workers, s.name, err), rc)
+					r.Observation("concurrent-created-key-does-not-sign:"+s.name, err.Error())
 					continue
 				}
 				if !verifyWith(tok, k.pub) {
@@ -210,7 +213,7 @@ func TestVerifC03Concurrent(t *testing.T) {
 				created++
 				signer, err := s.raw.GetPrivateKey(context.Background(), k.name, "1")
 				if err != nil {
-					r.Violation("C03|concurrent|"+s.name+"|binding|created-key-cannot-be-loaded|spi", fmt.Sprintf("with %d concurrent spi.NewPrivateKey calls on the %s back-end: a creation reported success but the key cannot be loaded: %v", workers, s.name, err), rc)
+					r.Observation("concurrent-created-key-cannot-be-loaded:"+s.name, err.Error())
 				} else if !samePub(signer.Public(), k.pub) {
 					r.Violation("C03|concurrent|"+s.name+"|binding|stored-key-differs|spi", fmt.Sprintf("with %d concurrent spi.NewPrivateKey calls on the %s back-end: the private key stored under a name does not belong to the public key returned for that name", workers, s.name), rc)
 				}
